@@ -1,0 +1,22 @@
+//go:build verif
+
+package crypto
+
+import (
+	"slices"
+
+	"github.com/relab/hotstuff"
+)
+
+// verifBatchIDs returns the IDs of the batch in ascending order. The pairing library's multi-pair
+// product is, for rare inputs, sensitive to the order in which the pairs are added; with Go's randomised
+// map order the verdict on one and the same aggregate signature could differ from call to call, which a
+// deterministic simulator cannot replay.
+func verifBatchIDs(batch map[hotstuff.ID][]byte) []hotstuff.ID {
+	ids := make([]hotstuff.ID, 0, len(batch))
+	for id := range batch {
+		ids = append(ids, id)
+	}
+	slices.Sort(ids)
+	return ids
+}
